@@ -222,6 +222,18 @@ package quic
 //@   ensures [recorded] h.connIDLimit == limit
 //@   modifies h.connIDLimit
 
+// Closing: the token of the active connection ID (if it has one) and the token of every path-probing connection ID
+// are unregistered, each exactly once.
+//@ func (h *connIDManager) Close
+//@   props C16
+//@   let act = ite(old(h.activeStatelessResetToken) != nil, 1, 0)
+//@   ensures [closed] h.closed
+//@   ensures [every-token-unregistered-once] called("field:removeStatelessResetToken") == act + ite(h.pathProbing != nil, len(h.pathProbing), 0)
+//@   modifies h.closed
+//@ loop (h *connIDManager) Close #0
+//@   invariant called("field:removeStatelessResetToken") == ite(old(h.activeStatelessResetToken) != nil, 1, 0) + visitedcount
+//@   modifies nothing
+
 //@ func (h *connIDManager) add
 //@   props C16 C12
 //@   requires h.qInv() && f.RetirePriorTo <= f.SequenceNumber && !h.closed
@@ -956,13 +968,13 @@ package quic
 
 //@ func (p *uPacketPacker) initialFrameBudget
 //@   props C10 C09
-//@   requires p.packetPacker != nil && sealer != nil && 0 <= packetSize && packetSize <= 1048576
+//@   requires p.packetPacker != nil && p.packetPacker.pnManager != nil && len(p.packetPacker.token) <= 65536 && sealer != nil && 0 <= packetSize && packetSize <= 1048576
 //@   ensures [non-negative] result >= 0 && result <= packetSize
 //@   modifies nothing
 
 //@ func (p *uPacketPacker) flightBudgets
 //@   props C10 C09
-//@   requires p.uSpec != nil && p.packetPacker != nil && sealer != nil && 0 <= cryptoLen && cryptoLen <= 1048576 && 0 <= maxSize && maxSize <= 65536 && len(p.uSpec.InitialPacketSpec.InitialPackets) <= 65536
+//@   requires p.uSpec != nil && p.packetPacker != nil && p.packetPacker.pnManager != nil && len(p.packetPacker.token) <= 65536 && sealer != nil && 0 <= cryptoLen && cryptoLen <= 1048576 && 0 <= maxSize && maxSize <= 65536 && len(p.uSpec.InitialPacketSpec.InitialPackets) <= 65536
 //@   requires forall(k, 0, len(p.uSpec.InitialPacketSpec.InitialPackets), p.uSpec.InitialPacketSpec.InitialPackets[k].PacketSize <= 1048576)
 //@   ensures [at-least-one] len(result) >= 1
 //@   ensures [pinned-length] implies(len(p.uSpec.InitialPacketSpec.InitialPackets) > 0, len(result) == len(p.uSpec.InitialPacketSpec.InitialPackets))
@@ -973,7 +985,7 @@ package quic
 
 //@ func (p *uPacketPacker) planInitialFlight
 //@   props C10 C09
-//@   requires p.uSpec != nil && p.packetPacker != nil && p.packetPacker.initialStream != nil && sealer != nil && 0 <= maxSize && maxSize <= 65536
+//@   requires p.uSpec != nil && p.packetPacker != nil && p.packetPacker.pnManager != nil && len(p.packetPacker.token) <= 65536 && p.packetPacker.initialStream != nil && sealer != nil && 0 <= maxSize && maxSize <= 65536
 //@   requires 0 <= p.packetPacker.initialStream.writeOffset && p.packetPacker.initialStream.writeOffset <= 4611686018427387903 && len(p.packetPacker.initialStream.writeBuf) <= 1048576 && len(p.uSpec.InitialPacketSpec.InitialPackets) <= 65536
 //@   requires forall(k, 0, len(p.uSpec.InitialPacketSpec.InitialPackets), p.uSpec.InitialPacketSpec.InitialPackets[k].PacketSize <= 1048576)
 //@   ensures [once] implies(old(p.flightPlanned), result == nil && called("(quic.QUICFlightFrameBuilder).BuildFlight") == 0 && len(p.flightPayloads) == old(len(p.flightPayloads)))
@@ -986,8 +998,12 @@ package quic
 //@   trusted serialises one planned datagram through appendInitialPacketPayload (under contract)
 //@   modifies everything
 //@ func (p *packetPacker) getLongHeader
-//@   trusted builds the header from the packer's state and PeekPacketNumber
-//@   ensures result != nil && isfresh(result) && len(result.Token) <= 65536 && result.DestConnectionID.l <= 20 && result.SrcConnectionID.l <= 20
+//@   props C10 C09
+//@   requires p.pnManager != nil && len(p.token) <= 65536
+//@   ensures [fresh-header] result != nil && isfresh(result) && len(result.Token) <= 65536 && result.DestConnectionID.l <= 20 && result.SrcConnectionID.l <= 20
+//@   ensures [type-by-level] implies(encLevel == protocol.EncryptionInitial, result.Type == protocol.PacketTypeInitial) && implies(encLevel == protocol.EncryptionHandshake, result.Type == protocol.PacketTypeHandshake) && implies(encLevel == protocol.Encryption0RTT, result.Type == protocol.PacketType0RTT)
+//@   ensures [version-and-ids] result.Version == v && result.SrcConnectionID.l == p.srcConnID.l
+//@   ensures [token-only-in-initial] implies(encLevel != protocol.EncryptionInitial, len(result.Token) == 0)
 //@   modifies nothing
 //@ func (p *packetPacker) maybeGetCryptoPacket
 //@   trusted quic-go's payload composition (ACK + CRYPTO + retransmissions) for one encryption level
@@ -1030,7 +1046,7 @@ package quic
 
 //@ func (p *uPacketPacker) PackCoalescedPacket
 //@   props C10
-//@   requires p.uSpec != nil && p.packetPacker != nil && p.packetPacker.cryptoSetup != nil && p.packetPacker.pnManager != nil && p.packetPacker.initialStream != nil && p.initialDatagramIdx >= 0
+//@   requires p.uSpec != nil && p.packetPacker != nil && p.packetPacker.cryptoSetup != nil && p.packetPacker.pnManager != nil && p.packetPacker.initialStream != nil && p.initialDatagramIdx >= 0 && len(p.packetPacker.token) <= 65536
 //@   requires 0 <= p.packetPacker.initialStream.writeOffset && p.packetPacker.initialStream.writeOffset <= 4611686018427387903 && 0 <= maxSize && maxSize <= 65536
 //@   requires len(p.packetPacker.initialStream.writeBuf) <= 1048576 && len(p.uSpec.InitialPacketSpec.InitialPackets) <= 65536 && forall(k, 0, len(p.uSpec.InitialPacketSpec.InitialPackets), p.uSpec.InitialPacketSpec.InitialPackets[k].PacketSize <= 1048576)
 //@   let ps = p.uSpec.InitialPacketSpec
